@@ -93,6 +93,13 @@ func (s *State) learn(t string) {
 			}
 			continue
 		}
+		if len(parts) == 3 && parts[0] == "=>" {
+			// an implication whose antecedent is decided by what is already known about literals
+			if s.decided(parts[1]) == 1 {
+				s.learn(parts[2])
+			}
+			continue
+		}
 		if len(parts) != 3 || parts[0] != "=" {
 			continue
 		}
@@ -128,6 +135,34 @@ func (s *State) learn(t string) {
 			}
 		}
 	}
+}
+
+// decided: 1 if the literal (dis)equality t is known to hold, -1 if known not to hold, 0 otherwise
+func (s *State) decided(t string) int {
+	p := sexpArgs(t)
+	if len(p) == 2 && p[0] == "not" {
+		return -s.decided(p[1])
+	}
+	if len(p) != 3 || p[0] != "=" {
+		return 0
+	}
+	a, b := p[1], p[2]
+	if isLitName(a) && !isLitName(b) {
+		a, b = b, a
+	}
+	if !isLitName(b) || isLitName(a) {
+		return 0
+	}
+	if l := s.litOf(a); l != "" {
+		if l == b {
+			return 1
+		}
+		return -1
+	}
+	if s.knownDifferent(a, b) {
+		return -1
+	}
+	return 0
 }
 
 func (s *State) put(k, v string) {
